@@ -95,6 +95,10 @@ def packages_equal(ctx, case, pk1, pk2):
             if t1[0] != 'ok' or t2[0] != 'ok' or X.canon(t1[1]) != X.canon(t2[1]):
                 d = _first_diff(X.canon(t1[1]), X.canon(t2[1])) if t1[0] == t2[0] == 'ok' else (t1[1], t2[1])
                 cause = 'style-used-by-both-parts' if (n.endswith('content.xml') or n.endswith('styles.xml')) and _shared_styles(pk1) else 'other'
+                # a list style, number style or page layout used by both parts is loaded once (at its place among the styles of
+                # content.xml), so the second styles.xml lists the same automatic styles in another order: recognised as exactly that
+                if cause == 'other' and _shared_named(pk1) and t1[0] == t2[0] == 'ok' and _sorted_autos(X.canon(t1[1])) == _sorted_autos(X.canon(t2[1])):
+                    cause = 'shared-automatic-style-order'
                 ctx.violation('second-generation-differs', dict(case, member=n), d, 'equal infosets', {'cause': cause})
         elif n != 'META-INF/manifest.xml' and pk1['members'][n] != pk2['members'][n]:
             ctx.violation('second-generation-bytes', dict(case, member=n), None, 'identical bytes', {})
@@ -112,6 +116,43 @@ def _shared_styles(pk):
     except Exception: pass
     return out
 
+def _auto_keys(t):
+    sec = [k for k in t[3] if k[0] == 'E' and k[1][1] == 'automatic-styles']
+    return [(tuple(x[1]), A(x).get((STY, 'name'))) for x in (sec[0][3] if sec else []) if x[0] == 'E' and A(x).get((STY, 'name'))]
+def _shared_named(pk):
+    """(element type, name) of named automatic styles of any kind written to both content.xml and styles.xml"""
+    try:
+        c = X.expat_parse(pk['members']['content.xml'])[1]; s = X.expat_parse(pk['members']['styles.xml'])[1]
+        return sorted(set(_auto_keys(c)) & set(_auto_keys(s)))
+    except Exception: return []
+def _sorted_autos(t):
+    """the tree with the children of office:automatic-styles in a fixed order"""
+    if t[0] != 'E': return t
+    kids = [_sorted_autos(k) for k in t[3]]
+    if t[1][1] == 'automatic-styles': kids = sorted(kids, key=repr)
+    return (t[0], t[1], t[2], kids)
+
+def directed(i):
+    """two fixed documents, run before the random ones in every tier: an automatic style:style used by the body and by a page
+    header (i = -2), and an automatic list style used by both, after a style only the header uses (i = -1)"""
+    from odf.opendocument import OpenDocumentText
+    from odf import style, text
+    doc = OpenDocumentText()
+    doc.automaticstyles.addElement(style.PageLayout(name='pm1'))
+    mp = style.MasterPage(name='Standard', pagelayoutname='pm1'); doc.masterstyles.addElement(mp)
+    h = style.Header(); mp.addElement(h)
+    if i == -2:
+        t1 = style.Style(name='T1', family='text'); t1.addElement(style.TextProperties(fontweight='bold')); doc.automaticstyles.addElement(t1)
+        p = text.P(text='body '); p.addElement(text.Span(stylename='T1', text='bold')); doc.text.addElement(p)
+        p = text.P(text='header '); p.addElement(text.Span(stylename='T1', text='bold')); h.addElement(p)
+    else:
+        g2 = style.Style(name='P9', family='paragraph'); g2.addElement(style.ParagraphProperties(textalign='center')); doc.automaticstyles.addElement(g2)
+        l7 = text.ListStyle(name='L7'); l7.addElement(text.ListLevelStyleBullet(level='1', bulletchar=u'\u2022')); doc.automaticstyles.addElement(l7)
+        for where in (doc.text, h):
+            li = text.List(stylename='L7'); it = text.ListItem(); it.addElement(text.P(text='item')); li.addElement(it); where.addElement(li)
+        h.addElement(text.P(stylename='P9', text='centred header'))
+    return doc
+
 def run(ctx):
     from odf.opendocument import load
     d = ctx.get_driver()
@@ -119,8 +160,8 @@ def run(ctx):
     refattrs = set(tuple(x) for x in twin['GenStyleRefs.v']['schema']) | {(STY, 'list-style-name')}
     n = 30 if ctx.quick else 800
     g = schemagen.Gen(ctx.rng, twin['GenGrammar.v'])
-    for i in range(n):
-        doc = g.document()
+    for i in range(-2, n):
+        doc = directed(i) if i < 0 else g.document()
         before = snapshot(doc)
         case = {'i': i, 'seed': ctx.seed, 'mime': doc.mimetype, 'elements': sum(X.tree_size(before['sections'][a]) for a in SECTS)}
         ctx.oracle_cases += 1
